@@ -35,8 +35,8 @@ var profiles = map[string]*Profile{
 	"full": {Name: "full", MaxConns: 6, MaxSess: 3, Len: 80, W: baseW, StepPct: 80, SnapPct: 10},
 	"C01": {Name: "C01", MaxConns: 6, MaxSess: 3, Len: 90, W: withW(map[string]int{"subscribe": 8, "comp_list": 5, "comp_update": 8, "unknown": 0, "undecodable": 0, "receipt": 0, "latency": 0, "ping_resp": 0}), StepPct: 80, SnapPct: 30},
 	"C02": {Name: "C02", MaxConns: 6, MaxSess: 2, Len: 90, StepPct: 85, SnapPct: 3,
-		W: map[string]int{"connect": 5, "disconnect": 5, "join": 16, "entity_add": 12, "entity_delete": 8, "pose": 12, "tick": 8, "step": 4, "custom": 8, "action": 8, "asset": 6, "comp_add": 2, "type_add": 1}},
-	"C03": {Name: "C03", MaxConns: 6, MaxSess: 3, Len: 90, W: withW(map[string]int{"join": 20, "disconnect": 5, "latency": 0, "ping_resp": 0, "receipt": 0}), StepPct: 85, SnapPct: 60},
+		W: map[string]int{"connect": 5, "disconnect": 5, "join": 16, "entity_add": 12, "entity_delete": 7, "pose": 26, "tick": 14, "step": 4, "custom": 8, "action": 8, "asset": 6, "comp_add": 2, "type_add": 1}},
+	"C03": {Name: "C03", MaxConns: 6, MaxSess: 3, Len: 120, W: withW(map[string]int{"join": 20, "disconnect": 5, "latency": 0, "ping_resp": 0, "receipt": 0, "action": 10, "asset": 8, "entity_add": 12, "pose": 4, "comp_update": 3, "tick": 4}), StepPct: 92, SnapPct: 100},
 	"C04": {Name: "C04", MaxConns: 5, MaxSess: 3, Len: 100, W: withW(map[string]int{"tick": 3, "pose": 3, "comp_update": 3, "custom": 2, "receipt": 3, "dagaz": 3, "ping": 2}), StepPct: 90, SnapPct: 45},
 	"C05": {Name: "C05", MaxConns: 6, MaxSess: 2, Len: 90, StepPct: 85, SnapPct: 15,
 		W: map[string]int{"connect": 4, "disconnect": 6, "join": 14, "entity_add": 14, "entity_delete": 14, "pose": 14, "tick": 8, "step": 3, "asset": 12, "action": 2}},
@@ -56,7 +56,7 @@ var profiles = map[string]*Profile{
 		W: map[string]int{"connect": 4, "disconnect": 2, "join": 12, "custom": 60, "entity_add": 2, "tick": 1, "step": 4, "unknown": 1}},
 	"C16": {Name: "C16", MaxConns: 5, MaxSess: 2, Len: 100, StepPct: 88, SnapPct: 20,
 		W: map[string]int{"connect": 3, "disconnect": 5, "join": 12, "entity_add": 12, "entity_delete": 7, "action": 30, "asset": 18, "step": 3, "tick": 1}},
-	"C17": {Name: "C17", MaxConns: 5, MaxSess: 2, Len: 70, W: withW(map[string]int{"latency": 0, "ping_resp": 0, "receipt": 0, "dagaz": 0}), StepPct: 85, SnapPct: 20},
+	"C17": {Name: "C17", MaxConns: 5, MaxSess: 2, Len: 70, W: withW(map[string]int{"latency": 0, "ping_resp": 0, "receipt": 0, "dagaz": 0, "custom": 12}), StepPct: 85, SnapPct: 20},
 	"C18": {Name: "C18", MaxConns: 4, MaxSess: 2, Len: 120, StepPct: 90, SnapPct: 2,
 		W: map[string]int{"connect": 2, "disconnect": 1, "join": 6, "latency": 12, "ping_resp": 60, "ping": 3, "entity_add": 2, "tick": 1, "step": 3}},
 }
